@@ -144,6 +144,7 @@ class Translator:
         self.fi = fi
         self.strvars = set()
         self.lists_frozen = set()
+        self.reads = set()
         defined = set(fi.params)
         body = self.block(fi.node.body, defined, tail=None)
         params = ' '.join(
@@ -153,7 +154,15 @@ class Translator:
         if fi.dialect == 'bdd':
             params = ('(fuel : nat) ' + params).strip()
         head = f'Definition {fi.coq_name} {params} :='
-        return head + '\n' + textwrap.indent(body, '  ') + '.'
+        text = head + '\n' + textwrap.indent(body, '  ') + '.'
+        if fi.dialect == 'bdd':
+            # which fields of the automaton the function reads, by name: the
+            # proofs pin this list, so that reading another flag or action
+            # under the same type cannot go unnoticed
+            reads = '; '.join(f'"{r}"' for r in sorted(self.reads))
+            text += (f'\n\nDefinition {fi.coq_name}_reads : list string := '
+                     f'[{reads}]%string.')
+        return text
 
     # ------------------------------------------------------------------
     # statements
@@ -605,6 +614,8 @@ class Translator:
             if d == 'bdd' and dn and dn.startswith('aut.'):
                 f = dn[4:]
                 if f in AUT_ATTRS:
+                    if f not in ('true', 'false'):
+                        self.reads.add(f)
                     return AUT_ATTRS[f]
             raise Refuse(f'attribute {_src(e)}')
         if isinstance(e, ast.Subscript):
@@ -650,8 +661,10 @@ class Translator:
             if d == 'bdd' and bn and bn.startswith('aut.'):
                 f = bn[4:]
                 if f == 'varlist' and key.value in VARLIST:
+                    self.reads.add(f'varlist[{key.value}]')
                     return VARLIST[key.value]
                 if (f, key.value) in AUT_FIELDS:
+                    self.reads.add(f'{f}[{key.value}]')
                     return AUT_FIELDS[(f, key.value)]
             if d == 'int' and key.value in HINT_FIELDS:
                 return f'({HINT_FIELDS[key.value]} {self.expr(base, defined)})'
